@@ -52,6 +52,16 @@ Definition entry_names (e : Z) (a : list Z) : list Z :=
     | Some t => enc_string (subfn_get_name t v)
     | None => [-999]
     end
+  else if e =? 2006 then
+    (* the same lookup in a table an application derived from table i, re-defining its k-th constant (an integer, or a range) *)
+    match nth_error subfn_tables (Z.to_nat (nth 0 a 0)) with
+    | Some t =>
+      let k := Z.to_nat (nth 2 a 0) in
+      let m' := if nth 3 a 0 =? 0 then GInt (nth 4 a 0) else GRange (nth 4 a 0) (nth 5 a 0) in
+      let members' := firstn k (t_members t) ++ match skipn k (t_members t) with (n, _) :: tl => (n, m') :: tl | [] => [] end in
+      enc_string (subfn_get_name {| t_owner := t_owner t; t_class := t_class t; t_pretty := t_pretty t; t_members := members' |} v)
+    | None => [-999]
+    end
   else if e =? 2002 then enc_string (nrc_name v)
   else if e =? 2003 then enc_M enc_ostring (did_name_from_id v)
   else if e =? 2004 then enc_M enc_ostring (routine_name_from_id v)
